@@ -91,13 +91,15 @@ fn run_interleaving(kind: &Kind, scripts: &[Vec<Op>], order: &[usize]) -> Vec<Ob
 /// a 2000-item weighted set through the std-HashMap entry points: every HashMap has its own random iteration order, so two
 /// instances in one thread already exercise different orders (the pruning paths of ProbMinHash3a need large sets)
 fn large_hashmap_digest(which: usize, set: u64) -> Result<Vec<u64>, String> {
+    // even set numbers: 2000 items (n >> m); odd set numbers: 150 items (n < m, every item survives into the later rounds)
+    let nitems: u64 = if set % 2 == 0 { 2000 } else { 150 };
     use fnv::FnvHasher;
     use probminhash::probminhasher::{ProbMinHash2, ProbMinHash3, ProbMinHash3a, ProbMinHash3aSha};
     use std::collections::HashMap;
     let wtab = [0.3, 0.5, 1.0, 1.0, 1.5, 2.0, 3.0, 4.5, 7.0, 11.0, 16.0, 40.0, 250.0];
     let base = 7_000_000 * (set + 1);
     crate::common::guarded_mut(move || {
-        let hm: HashMap<u64, f64> = (0..2000u64).map(|i| (base + i, wtab[(crate::common::splitmix64(base + i) % 13) as usize])).collect();
+        let hm: HashMap<u64, f64> = (0..nitems).map(|i| (base + i, wtab[(crate::common::splitmix64(base + i) % 13) as usize])).collect();
         match which {
             0 => {
                 let mut h = ProbMinHash3a::<u64, FnvHasher>::new(256, u64::MAX);
@@ -136,7 +138,7 @@ fn check_large_hashmaps(ctx: &Ctx, st: &mut Stats) {
             if a != b {
                 ctx.violation(
                     &format!("instances:{}", LARGE_NAMES[which]),
-                    &format!("{} m=256: two instances fed the same weighted set of 2000 items (set #{}) through std HashMaps (independent iteration orders) give different signatures", LARGE_NAMES[which], set),
+                    &format!("{} m=256: two instances fed the same weighted set of 2000 (even set numbers) or 150 (odd) items (set #{}) through std HashMaps (independent iteration orders) give different signatures", LARGE_NAMES[which], set),
                     json!({"kind": "large-hashmap", "which": which, "set": set}),
                 );
                 break;
